@@ -337,6 +337,24 @@ void run_spline(Tape& t, Ctx& ctx, const char* sname) {
     }
     VCHECK(ctx, copy.getBreakpoints() == oldB && (copy.getCoefficients().array() == oldC.array()).all() && assigned.getBreakpoints() == oldB, "copy-not-independent",
            sname << ": copy's data changed after the spline was updated");
+    // assignment of whole spline objects: the target's trajectory was evaluated before (caches populated) and must follow the assignment
+    if (t.flag()) {
+      std::vector<double> T3; MatrixType P3; double t03; BoundaryConditions<DIM> bc3;
+      gen_inputs(T3, P3, t03, bc3);
+      Spline target(T3, P3, t03, bc3);
+      const PP& tt = target.getTrajectory();
+      for (int q = 0; q < nq; ++q) (void)tt.evaluate(tt.getStartTime() + 0.25 * q, ks[q]);
+      target = sp;
+      Spline cc(sp);
+      for (int q = 0; q < nq; ++q) {
+        double tq = a2 + (b2 - a2) * ((q * 29 + 3) % 64) / 64.0;
+        VectorType v1 = target.getTrajectory().evaluate(tq, ks[q]), v2 = ft.evaluate(tq, ks[q]), v3 = cc.getTrajectory().evaluate(tq, ks[q]);
+        VCHECK(ctx, vec_same(v1, v2) && vec_same(v3, v2), "stale-after-assignment",
+               sname << ": a spline assigned over an already evaluated spline (or copy-constructed) evaluates to " << vec_str(v1) << " / " << vec_str(v3) << " at t=" << hexd(tq) << " k=" << ks[q] << ", its source gives " << vec_str(v2));
+      }
+      VCHECK(ctx, same_val(target.getEnergy(), fresh.getEnergy()) && target.getCumulativeTimes() == fresh.getCumulativeTimes(), "stale-after-assignment", sname << ": assigned spline's energy / knot times differ from its source");
+      ctx.label("spline-assign-over-evaluated");
+    }
     nt = true;
   }
   if (ctx.want_desc) ctx.desc << "]";
